@@ -107,6 +107,11 @@ pub enum MapOp {
     Capacity,
     /// every `Default` impl of the container and its iterators
     Defaults,
+    /// clone of a container of plain (destructor-free, counting-`Clone`) elements built from the list
+    ClonePlain(Vec<(u16, u16)>),
+    /// serde round trip of a container of `k` zero-sized elements (at most one is stored)
+    #[allow(dead_code)]
+    SerdeZst(usize),
     Drain(Take, End),
     IntoIter(IntoKind, Take, End),
     Iter(IterKind, i32, Vec<Cmd>),
@@ -141,6 +146,11 @@ pub enum SetOp {
     Capacity,
     /// every `Default` impl of the container and its iterators
     Defaults,
+    /// clone of a container of plain (destructor-free, counting-`Clone`) elements built from the list
+    ClonePlain(Vec<(u16, u16)>),
+    /// serde round trip of a container of `k` zero-sized elements (at most one is stored)
+    #[allow(dead_code)]
+    SerdeZst(usize),
     Drain(Take, End),
     IntoIter(Take, End),
     Iter(Vec<Cmd>),
@@ -354,6 +364,14 @@ fn map_op(a: &[&str]) -> Option<MapOp> {
         ["is_empty"] => MapOp::IsEmpty,
         ["capacity"] => MapOp::Capacity,
         ["defaults"] => MapOp::Defaults,
+        ["clone_plain", xs] => {
+            let v: Option<Vec<(u16, u16)>> = list(xs)?.into_iter().map(|it| {
+                let (a, b) = it.split_once('=')?;
+                Some((a.parse().ok()?, b.parse().ok()?))
+            }).collect();
+            MapOp::ClonePlain(v?)
+        }
+        ["serde_zst", k] => MapOp::SerdeZst(k.parse().ok()?),
         ["drain", t, e] => MapOp::Drain(take(t)?, end(e)?),
         ["into_iter", kind, t, e] => {
             let kind = match *kind {
@@ -418,6 +436,11 @@ fn set_op(a: &[&str]) -> Option<SetOp> {
         ["is_empty"] => SetOp::IsEmpty,
         ["capacity"] => SetOp::Capacity,
         ["defaults"] => SetOp::Defaults,
+        ["clone_plain", xs] => {
+            let v: Option<Vec<(u16, u16)>> = list(xs)?.into_iter().map(|it| Some((it.parse().ok()?, 0))).collect();
+            SetOp::ClonePlain(v?)
+        }
+        ["serde_zst", k] => SetOp::SerdeZst(k.parse().ok()?),
         ["drain", t, e] => SetOp::Drain(take(t)?, end(e)?),
         ["into_iter", t, e] => SetOp::IntoIter(take(t)?, end(e)?),
         ["iter", s] => SetOp::Iter(script(s)?),
